@@ -51,7 +51,9 @@ import (
 	providerapiv1 "github.com/primevprotocol/mev-commit/gen/go/providerapi/v1"
 	"github.com/primevprotocol/mev-commit/pkg/node"
 	"google.golang.org/grpc"
+	"google.golang.org/grpc/codes"
 	"google.golang.org/grpc/credentials"
+	"google.golang.org/grpc/status"
 	"verif/harness/vh"
 )
 
@@ -254,6 +256,8 @@ type in struct {
 	// what happens to the stake / prepay transactions: "" mined successfully | revert (mined with
 	// status 0, nothing credited) | reject (the chain node refuses the raw transaction)
 	OpsFault string `json:"ops_fault,omitempty"`
+	Engine   string `json:"engine,omitempty"`    // "" accept | reject: what the provider's decision engine answers
+	BidShape string `json:"bid_shape,omitempty"` // "" valid | bad-hash | zero-amount | no-hash: the request given to the bidder node's API
 }
 
 type obs struct {
@@ -270,6 +274,7 @@ type obs struct {
 	CommitMatches  bool     `json:"commit_matches_tx"` // each commitment's fields = ABI-decoded args of one commitment tx
 	ProviderIsP    bool     `json:"provider_address_ok"`
 	EngineSaw      int      `json:"engine_saw"`
+	APIRefused     bool     `json:"api_refused"` // the bidder node's API answered InvalidArgument and nothing was sent
 	StakeTxAt      string   `json:"stake_tx_at"`  // ops: target.method:value of the RegisterStake transaction
 	PrepayTxAt     string   `json:"prepay_tx_at"` // ops: same for PrepayAllowance
 	StakeReported  string   `json:"stake_reported"`
@@ -452,7 +457,11 @@ func run(sc in, rng *vh.Rng, cert, keyf string) (o obs) {
 			emu.Lock()
 			o.EngineSaw++
 			emu.Unlock()
-			_ = decisions.Send(&providerapiv1.BidResponse{BidDigest: b.BidDigest, Status: providerapiv1.BidResponse_STATUS_ACCEPTED})
+			st := providerapiv1.BidResponse_STATUS_ACCEPTED
+			if sc.Engine == "reject" {
+				st = providerapiv1.BidResponse_STATUS_REJECTED
+			}
+			_ = decisions.Send(&providerapiv1.BidResponse{BidDigest: b.BidDigest, Status: st})
 		}
 	}()
 	time.Sleep(200 * time.Millisecond) // ReceiveBids registered
@@ -461,19 +470,30 @@ func run(sc in, rng *vh.Rng, cert, keyf string) (o obs) {
 	amount := fmt.Sprint(1 + rng.Intn(1000000))
 	blk, ds, de := int64(1+rng.Intn(100000)), int64(1+rng.Intn(100000)), int64(200000+rng.Intn(100000))
 	sctx, scancel := context.WithTimeout(ctx, 8*time.Second)
-	stream, err := bidder.SendBid(sctx, &bidderapiv1.Bid{TxHashes: []string{txh}, Amount: amount, BlockNumber: blk, DecayStartTimestamp: ds, DecayEndTimestamp: de})
+	req := &bidderapiv1.Bid{TxHashes: []string{txh}, Amount: amount, BlockNumber: blk, DecayStartTimestamp: ds, DecayEndTimestamp: de}
+	switch sc.BidShape {
+	case "bad-hash":
+		req.TxHashes = []string{"zz" + txh[2:]}
+	case "zero-amount":
+		req.Amount = "0"
+	case "no-hash":
+		req.TxHashes = nil
+	}
+	stream, err := bidder.SendBid(sctx, req)
 	var got []*bidderapiv1.Commitment
 	if err == nil {
 		for {
 			cm, err := stream.Recv()
 			if err != nil {
-				if err != io.EOF {
-					_ = err
+				if err != io.EOF && status.Code(err) == codes.InvalidArgument {
+					o.APIRefused = true
 				}
 				break
 			}
 			got = append(got, cm)
 		}
+	} else if status.Code(err) == codes.InvalidArgument {
+		o.APIRefused = true
 	}
 	scancel()
 	time.Sleep(100 * time.Millisecond)
@@ -593,11 +613,15 @@ func main() {
 		{Tag: "nodewire", Staked: true, Allowed: true, Ops: true},
 		{Tag: "nodewire", Staked: true, Allowed: false},
 		{Tag: "nodewire", Staked: false, Allowed: true},
+		{Tag: "nodewire", Staked: true, Allowed: true, Engine: "reject"},
+		{Tag: "nodewire", Staked: true, Allowed: true, BidShape: "bad-hash"},
 		{Tag: "nodewire", Staked: true, Allowed: true, Ops: true, OpsFault: "revert"},
 		{Tag: "nodewire", Staked: true, Allowed: true, Ops: true, OpsFault: "reject"},
 	}
 	if vh.Thorough() {
-		scs = append(scs, in{Tag: "nodewire", Staked: false, Allowed: false, Ops: true}, in{Tag: "nodewire", Staked: true, Allowed: true})
+		scs = append(scs, in{Tag: "nodewire", Staked: false, Allowed: false, Ops: true}, in{Tag: "nodewire", Staked: true, Allowed: true},
+			in{Tag: "nodewire", Staked: true, Allowed: true, BidShape: "zero-amount"}, in{Tag: "nodewire", Staked: true, Allowed: true, BidShape: "no-hash"},
+			in{Tag: "nodewire", Staked: true, Allowed: false, Engine: "reject"})
 	}
 	// every scenario builds its own pair of nodes on its own ports: run them side by side
 	res := make([]obs, len(scs))
